@@ -558,3 +558,29 @@ m('M45e', 'C19', 'C19.concept', 'with_allocator.h',
     void *operator new(std::size_t sz) {return ::operator new(sz);} //incorrectly use of with_allocator""", 'plain operator new made public')
 m('M45f', 'C19', 'C19.trailer', 'coro_storage.h',
   "        auto s = reinterpret_cast<reusable_storage_mtsafe **>(reinterpret_cast<char *>(ptr) + sz);\n        auto me = *s;", "        auto s = reinterpret_cast<reusable_storage_mtsafe **>(reinterpret_cast<char *>(ptr) + sz - sizeof(void *));\n        auto me = *s;", 'dealloc reads the owner at another offset')
+m('M46', 'C20', 'C20.no-allocation-reachable', 'mutex.h',
+  """    void build_queue(awaiter *stop) {
+        assert("Can't build queue if there are items in it" && _queue == nullptr);""", """    void build_queue(awaiter *stop) {
+        std::vector<awaiter *> __tmp; __tmp.push_back(stop);
+        assert("Can't build queue if there are items in it" && _queue == nullptr);""", 'vector in build_queue')
+m('M47', 'C20', 'C20.no-allocation-reachable', 'awaiter.h',
+  """    sync_awaiter awt;
+    if (subscribe(&awt)) {
+        awt.flag.wait(false);
+    }
+}
+
+template<typename promise_type>
+inline void co_awaiter<promise_type>::force_sync() noexcept  {""", """    auto awtp = std::make_shared<sync_awaiter>(); sync_awaiter &awt = *awtp;
+    if (subscribe(&awt)) {
+        awt.flag.wait(false);
+    }
+}
+
+template<typename promise_type>
+inline void co_awaiter<promise_type>::force_sync() noexcept  {""", 'sync allocates its awaiter')
+m('M47b', 'C20', 'C20.no-allocation-reachable', 'future.h',
+  """    suspend_point<bool> set_value(DropTag) {
+        auto m = claim();""", """    suspend_point<bool> set_value(DropTag) {
+        std::string __why("dropped"); (void)__why.append(40, 'x');
+        auto m = claim();""", 'string in drop')
